@@ -89,6 +89,7 @@ type FuncCtx struct {
 	pendingQueries []pendingQ
 	spec           *specCtx
 	clauseErr      string
+	specDepth      int
 	cerrs          []string
 }
 
@@ -119,6 +120,9 @@ func (f *FuncCtx) define(hint, sort, term string) string {
 }
 
 func (f *FuncCtx) name(v Val, hint string) Val {
+	if f.spec != nil {
+		return v // contract expressions may mention bound variables: never hoisted into definitions
+	}
 	if len(v.T) > 48 && v.Clo == nil {
 		v.T = f.define(hint, f.sortOfVal(v), v.T)
 	}
@@ -274,34 +278,74 @@ func (f *FuncCtx) merge(envs []*Env) *Env {
 	pc := f.fresh("pc", "Bool")
 	f.emit(fmt.Sprintf("(assert (=> %s (or %s)))", pc, strings.Join(pcs, " ")))
 	m.pc = pc
-	// vars
-	for obj, v0 := range live[0].vars {
+	// vars (a variable missing in some state is out of scope / undefined there: any value)
+	union := map[types.Object]bool{}
+	for _, e := range live {
+		for obj := range e.vars {
+			union[obj] = true
+		}
+	}
+	var uobjs []types.Object
+	for obj := range union {
+		uobjs = append(uobjs, obj)
+	}
+	sort.Slice(uobjs, func(i, j int) bool { return uobjs[i].Pos() < uobjs[j].Pos() || (uobjs[i].Pos() == uobjs[j].Pos() && uobjs[i].Name() < uobjs[j].Name()) })
+	for _, obj := range uobjs {
+		vals := make([]Val, len(live))
 		same := true
-		all := true
-		for _, e := range live[1:] {
+		clo := false
+		var first *Val
+		for i, e := range live {
 			v, ok := e.vars[obj]
 			if !ok {
-				all = false
-				break
+				same = false
+				continue
 			}
-			if v.T != v0.T || v.Clo != v0.Clo {
+			vals[i] = v
+			if v.Clo != nil {
+				clo = true
+			}
+			if first == nil {
+				vv := v
+				first = &vv
+			} else if v.T != first.T || v.Clo != first.Clo {
 				same = false
 			}
 		}
-		if !all {
-			delete(m.vars, obj)
-			continue
-		}
 		if same {
+			m.vars[obj] = *first
 			continue
 		}
-		if v0.Clo != nil {
-			delete(m.vars, obj)
+		if clo {
+			// closures must be bound identically on all paths
+			allSame := true
+			for _, v := range vals {
+				if v.Clo != first.Clo {
+					allSame = false
+				}
+			}
+			if allSame {
+				m.vars[obj] = *first
+			} else {
+				delete(m.vars, obj)
+			}
 			continue
 		}
-		t := live[len(live)-1].vars[obj].T
-		for i := len(live) - 2; i >= 0; i-- {
-			t = fmt.Sprintf("(ite %s %s %s)", live[i].pc, live[i].vars[obj].T, t)
+		var dummy string
+		t := ""
+		for i := len(live) - 1; i >= 0; i-- {
+			vt := vals[i].T
+			if vt == "" {
+				if dummy == "" {
+					dummy = f.fresh("undef_"+obj.Name(), f.S.SortOf(obj.Type()))
+				}
+				vt = dummy
+			}
+			if t == "" {
+				t = vt
+			} else {
+				t = fmt.Sprintf("(ite %s %s %s)", live[i].pc, vt, t)
+			}
 		}
 		m.vars[obj] = Val{T: f.define(obj.Name(), f.S.SortOf(obj.Type()), t), Typ: obj.Type()}
 	}
